@@ -60,6 +60,9 @@ pub fn run(target: &str, seeds: &[Vec<u8>], runs_per_proc: u64, procs: usize, se
         let child = Command::new(&bin)
             .arg(&dir)
             .arg(format!("-runs={}", runs_per_proc))
+            // a campaign ends at its run count or after this many seconds, whichever comes first; stopping
+            // on time only lowers the number of executions reported
+            .arg(format!("-max_total_time={}", std::env::var("VERIF_FUZZ_SECS").ok().and_then(|s| s.parse::<u64>().ok()).unwrap_or(600)))
             .arg(format!("-seed={}", (seed.wrapping_mul(1000).wrapping_add(k as u64 + 1)) % 4_000_000_000 + 1))
             .arg("-len_control=0")
             .arg(format!("-max_len={}", max_len))
